@@ -20,7 +20,7 @@ var JSONRules = []string{
 
 var HTTPRules = []string{"path_var_no_field", "path_var_non_scalar_kind", "path_var_not_singular", "path_and_query", "bodiless_unbound_fields"}
 
-var Placements = []string{"top", "nested", "other_generated_file", "imported_file"}
+var Placements = []string{"top", "nested", "other_generated_file", "imported_file", "nested_under_annotated"}
 
 // Broken is a self-contained rule-breaking fragment: messages (the first one is the offender's
 // home), enums, and for HTTP rules a method on the offending input message.
@@ -362,6 +362,31 @@ func Place(r *R, idx int, rule, placement string) (*ir.Request, *Broken) {
 	case "nested":
 		// the offender nested inside a valid top-level message
 		holder := &ir.Message{Name: "Holder" + tag, Fields: []*ir.Field{{Name: "note", Number: 1, Kind: "string"}}}
+		b := mk(".demo.v1.Holder" + tag + ".")
+		holder.Nested = append(holder.Nested, b.Messages...)
+		holder.Enums = append(holder.Enums, b.Enums...)
+		main.Messages = append(main.Messages, holder)
+		if b.Method != nil {
+			b.Method.Input = ".demo.v1.Holder" + tag + "." + b.Method.Input
+			b.Method.Output = b.Method.Input
+			for _, pm := range b.PreMethods {
+				pm.Input, pm.Output = b.Method.Input, b.Method.Output
+				main.Services[0].Methods = append(main.Services[0].Methods, pm)
+			}
+			main.Services[0].Methods = append(main.Services[0].Methods, b.Method)
+		}
+		return req, b
+	case "nested_under_annotated":
+		// the offender nested inside a message that itself carries VALID annotations of the same families (a root
+		// unwrap list, an int64 encoding, a nullable field): a collector that stops descending once a parent is
+		// "handled" never sees what its nested declarations do
+		var holder *ir.Message
+		if tagNo(tag)%2 == 0 {
+			holder = &ir.Message{Name: "Holder" + tag, Fields: []*ir.Field{{Name: "items", Number: 1, Kind: "string", Card: "repeated", Ann: ir.Ann{Unwrap: true}}}}
+		} else {
+			holder = &ir.Message{Name: "Holder" + tag, Fields: []*ir.Field{{Name: "big", Number: 1, Kind: "int64", Ann: ir.Ann{Int64Enc: "NUMBER"}},
+				{Name: "maybe", Number: 2, Kind: "string", Card: "optional", Ann: ir.Ann{Nullable: bp(true)}}}}
+		}
 		b := mk(".demo.v1.Holder" + tag + ".")
 		holder.Nested = append(holder.Nested, b.Messages...)
 		holder.Enums = append(holder.Enums, b.Enums...)
